@@ -1,7 +1,7 @@
 (* C16 — Par/Seq trees. Statements only; proofs in ParSeqProps.v.  Trees of any depth and
    fan-out; [tr_tree t tr]: tr is a trace of dispatching t — a seq node concatenates the traces of
    its children, a par node interleaves them arbitrarily (rayon join). *)
-From Shred Require Import Base Plan PlanLemmas Exec ExecProps ParSeq ParSeqProps.
+From Shred Require Import Base Plan PlanLemmas Exec ExecProps ParSeq ParSeqProps TreeAccept.
 From Coq Require Import Permutation.
 
 (* every leaf runs exactly once: every trace is a rearrangement of the sequential trace *)
@@ -42,6 +42,13 @@ Theorem C16_par_with_panics_iff_conflict :
      rw_conflict (t_reads d) (t_writes d) (concat (map t_reads (c :: l1))) (concat (map t_writes (c :: l1))) = false).
 Proof. exact par_ok_iff. Qed.
 Print Assumptions C16_par_with_panics_iff_conflict.
+
+(* the acceptor that suite S6 runs on every recorded trace of a real Par/Seq tree is sound: a trace it
+   accepts is a trace of the model, so the theorems above hold of the recorded run itself *)
+Theorem C16_trace_acceptor_sound :
+  forall t tr, NoDup (t_leaves t) -> tree_accept t tr = true -> tr_tree t tr.
+Proof. exact tree_accept_sound. Qed.
+Print Assumptions C16_trace_acceptor_sound.
 
 Example C16_example :
   let t := TSeq [TPar [TLeaf 1 [8] []; TLeaf 2 [8] [9]]; TLeaf 3 [] [8]] in
